@@ -27,5 +27,32 @@ MUTATIONS = [
     dict(property="C14", name="sample_iter_override", expect="dist-impl",
          what="UnitBall overrides Distribution::sample_iter",
          edits=[("src/unit_ball.rs", "    fn sample<R: Rng + ?Sized>(&self, rng: &mut R) -> [F; 3] {", "    fn sample_iter<R>(self, rng: R) -> rand::distr::Iter<Self, R, [F; 3]>\n    where\n        R: Rng,\n        Self: Sized,\n    {\n        rand::distr::Distribution::<[F; 3]>::sample_iter(&self, rng);\n        unimplemented!()\n    }\n    fn sample<R: Rng + ?Sized>(&self, rng: &mut R) -> [F; 3] {")]),
+    # ------------------------------------------------------------------ C06
+    dict(property="C06", name="norm_x_entry", expect="area", what="one ZIG_NORM_X entry perturbed by 3e-7 relative",
+         edits=[("src/ziggurat_tables.rs", "2.610910518487548515,", "2.610911318487548515,")]),
+    dict(property="C06", name="exp_x_entry", expect="area", what="one ZIG_EXP_X entry perturbed",
+         edits=[("src/ziggurat_tables.rs", "6.941033629377212577,", "6.941034629377212577,")]),
+    dict(property="C06", name="norm_r", expect="tail", what="ZIG_NORM_R perturbed (tail start no longer X[1])",
+         edits=[("src/ziggurat_tables.rs", "pub const ZIG_NORM_R: f64 = 3.654152885361008796;", "pub const ZIG_NORM_R: f64 = 3.654162885361008796;")]),
+    dict(property="C06", name="exp_tables_swapped", expect="pair", what="X/F arguments swapped at the Exp1 call site",
+         edits=[("src/exponential.rs", "            &ziggurat_tables::ZIG_EXP_X,\n            &ziggurat_tables::ZIG_EXP_F,", "            &ziggurat_tables::ZIG_EXP_F,\n            &ziggurat_tables::ZIG_EXP_X,")]),
+    dict(property="C06", name="symmetric_flipped", expect="symmetric", what="symmetric flag false for the normal",
+         edits=[("src/normal.rs", "            true, // this is symmetric", "            false,")]),
+    dict(property="C06", name="exp_r_in_normal_tail", expect="tail", what="ZIG_EXP_R used in the normal tail",
+         edits=[("src/normal.rs", "                x - ziggurat_tables::ZIG_NORM_R\n", "                x - ziggurat_tables::ZIG_EXP_R\n")]),
+    dict(property="C06", name="normal_pdf_wrong", expect="pdf", what="normal pdf without the 1/2",
+         edits=[("src/normal.rs", "            (-x * x / 2.0).exp()", "            (-x * x).exp()")]),
+    dict(property="C06", name="f_entry", expect="density", what="one ZIG_NORM_F entry perturbed by 1e-9",
+         edits=[("src/ziggurat_tables.rs", "0.011842757857943104,", "0.011849757857943104,")]),
+    # ------------------------------------------------------------------ C15
+    dict(property="C15", name="skip_field", expect="attributes", what="serde(skip) + default on Beta::switched_params",
+         edits=[("src/beta.rs", "    switched_params: bool,\n", "    #[cfg_attr(feature = \"serde\", serde(skip))]\n    switched_params: bool,\n")]),
+    dict(property="C15", name="rename_serialize", expect="attributes", what="rename(serialize = ..) on GammaSmallShape::inv_shape",
+         edits=[("src/gamma.rs", "    inv_shape: F,\n    large_shape: GammaLargeShape<F>,", "    #[cfg_attr(feature = \"serde\", serde(rename(serialize = \"inv\")))]\n    inv_shape: F,\n    large_shape: GammaLargeShape<F>,")]),
+    dict(property="C15", name="default_field", expect="attributes", what="serde(default) on Binomial-like flag Beta::switched_params (a missing field silently becomes false)",
+         edits=[("src/beta.rs", "    switched_params: bool,\n", "    #[cfg_attr(feature = \"serde\", serde(default))]\n    switched_params: bool,\n")]),
+    dict(property="C15", name="handwritten_serialize", expect="pairing", what="hand-written Serialize for UnitDisc next to a derived Deserialize",
+         edits=[("src/unit_disc.rs", "#[cfg_attr(feature = \"serde\", derive(serde::Serialize, serde::Deserialize))]\npub struct UnitDisc;",
+                 "#[cfg_attr(feature = \"serde\", derive(serde::Deserialize))]\npub struct UnitDisc;\n#[cfg(feature = \"serde\")]\nimpl serde::Serialize for UnitDisc {\n    fn serialize<S: serde::Serializer>(&self, s: S) -> Result<S::Ok, S::Error> {\n        s.serialize_unit_struct(\"UnitDisk\")\n    }\n}")]),
 ]
 MUTATIONS = [m for m in MUTATIONS if m["edits"]]
